@@ -36,7 +36,7 @@ FIT_FAULTS = (
     "type_ndarray", "type_list_ndarray", "type_dataframe", "type_none", "type_int",
     "dim_unknown", "dim_partly_unknown", "dim_partly_unknown_nocenter", "dim_empty", "dim_all", "dim_nonstring",
     "nmodes_gt_rank", "nmodes_rank_plus1", "nmodes_gt_rank_square", "nmodes_zero", "nmodes_negative", "nmodes_string", "nmodes_none", "nmodes_float_gt1",
-    "solver_unknown", "alpha_negative", "samples_mismatch", "weights_ndarray",
+    "solver_unknown", "solver_unknown_dask", "alpha_negative", "samples_mismatch", "weights_ndarray",
 )
 TRANSFORM_FAULTS = (
     "t_type_ndarray", "t_missing_feature_dim", "t_missing_sample_dim", "t_extra_dim", "t_renamed_dim", "t_shifted_coords",
@@ -70,6 +70,8 @@ def _applicable(cls, container, fault):
         return not rot and cls not in ("POP",) or (cls == "POP" and fault == "nmodes_gt_rank")
     if fault == "solver_unknown":
         return k != "multi"
+    if fault == "solver_unknown_dask":
+        return k != "multi" and cls not in zoo.COMPLEX_INPUT_OK and not cls.startswith("Hilbert")  # complex + dask is refused for its own reason
     if fault == "weights_ndarray":
         return k != "multi"
     if fault == "dim_partly_unknown_nocenter":
@@ -322,6 +324,11 @@ def run_case(case, obs):
                 expect_refusal(lambda: (lambda f: (f.scores(), f.components()))(do_fit(d, dict(kw, n_modes=bad))), f"n_modes={bad!r}")
         elif fault == "solver_unknown":
             expect_refusal(lambda: do_fit(d, dict(kw, solver="no_such_solver")), "unknown solver name")
+        elif fault == "solver_unknown_dask":
+            # the same malformed option on chunked (dask-backed) input: the solver dispatch has a branch of its own there
+            dd = [_map(x, lambda o: o.chunk({"time": 10})) for x in d]
+            for bad in ("no_such_solver", "Full"):
+                expect_refusal(lambda bad=bad: (lambda f: (f.scores()[0].compute(), f.components()))(do_fit(dd, dict(kw, solver=bad))), f"unknown solver name {bad!r} with dask input")
         elif fault == "alpha_negative":
             expect_refusal(lambda: do_fit(d, dict(kw, alpha=-0.5)), "negative alpha")
         elif fault == "samples_mismatch":
